@@ -222,10 +222,10 @@ Proof.
   change 15%nat with (S (S 13)). exact (loop_fresh 13 ds [] ICD_nil H).
 Qed.
 
-Theorem append_is_canonD (cs : store) (new : list cd) : IsCanonD cs -> Forall freshD new ->
-  calculate NO I (cs ++ new) = canonD_acc cs new.
+Lemma loop_after_append f (cs : store) (new : list cd) : IsCanonD cs -> Forall freshD new ->
+  loop f (zrange (Z.of_nat (find_calc_index NO I (cs ++ new))) (zlen (cs ++ new))) true (cs ++ new) = canonD_acc cs new.
 Proof.
-  intros Hc Hf. rewrite calculate_is_loop.
+  intros Hc Hf.
   pose proof (find_calc_index_le cs new (freshD_I new Hf)) as Hs.
   set (s := find_calc_index NO I (cs ++ new)) in *. clearbody s.
   assert (L1 : List.length (firstn s cs) = s) by (rewrite firstn_length; lia).
@@ -235,11 +235,31 @@ Proof.
   pose proof (zlen_nonneg a). pose proof (zlen_nonneg m). pose proof (zlen_nonneg new).
   rewrite (zlen_app (a ++ m) new).
   rewrite (zrange_split (zlen a) (zlen (a ++ m))) by (rewrite zlen_app; lia).
-  change 15%nat with (S (S 13)). rewrite loop_app.
-  assert (E1 : loop 13 (zrange (zlen a) (zlen (a ++ m))) true ((a ++ m) ++ new) = Ok ((a ++ m) ++ new)).
+  rewrite loop_app.
+  assert (E1 : loop f (zrange (zlen a) (zlen (a ++ m))) true ((a ++ m) ++ new) = Ok ((a ++ m) ++ new)).
   { rewrite zlen_app. rewrite <- !app_assoc. apply loop_canon. exact Hc. }
   rewrite E1. cbn [bind]. apply loop_fresh; assumption.
 Qed.
+
+Theorem append_is_canonD (cs : store) (new : list cd) : IsCanonD cs -> Forall freshD new ->
+  calculate NO I (cs ++ new) = canonD_acc cs new.
+Proof.
+  intros Hc Hf. rewrite calculate_is_loop. change 15%nat with (S (S 13)). apply loop_after_append; assumption.
+Qed.
+
+(* the same at the recursive entry point, with any fuel left (an indicator that is itself a helper
+   of another one is calculated through it) *)
+Lemma run_calculateD f st :
+  run NO (S (S (S f))) (RCalculate NO) I st =
+  (st' <- loop f (zrange (Z.of_nat (find_calc_index NO I st)) (zlen st)) true st ;; Ok (VNone, st')).
+Proof.
+  rewrite run_S. cbn [step]. rewrite !run_subs_nil. cbn [bind].
+  destruct (calc_loop NO (run NO (S (S f))) I _ true st) as [st2|e]; cbn [bind]; [rewrite run_subs_nil|]; reflexivity.
+Qed.
+Theorem append_runD f (cs : store) (new : list cd) : IsCanonD cs -> Forall freshD new ->
+  run NO (S (S (S f))) (RCalculate NO) I (cs ++ new) = (r <- canonD_acc cs new ;; Ok (VNone, r)).
+Proof. intros Hc Hf. rewrite run_calculateD. rewrite loop_after_append by assumption. reflexivity. Qed.
+
 
 Lemma canonD_acc_iscanon : forall todo a r, IsCanonD a -> Forall freshD todo -> canonD_acc a todo = Ok r ->
   IsCanonD r /\ exists tl, r = a ++ tl.
